@@ -137,10 +137,11 @@ def serviceExists (w : World) : Bool := w.partKeys.any (svcCore w)
 
 /-! ### notifier (`notifier.rs`) -/
 
-/-- the listener's event concept can be opened -/
+/-- the listener's event concept can be opened (`NotifierBuilder::open`): the listener lives; the concept of a listener
+whose process died can still be opened in the process-local variant, not in the ipc variant (nobody is bound to the socket) -/
 def conceptExists (w : World) (l : Nat) : Bool :=
   match w.liss l with
-  | some L => L.st != .gone
+  | some L => L.st = .alive || (!w.cfg.ipc && L.st = .dead)
   | none => false
 
 /-- `ListenerConnections::populate_listener_channels` -/
@@ -182,14 +183,13 @@ deriving DecidableEq, Repr
 
 /-- `Notifier::__internal_notify` -/
 def notifyCore (w : World) (n : Nat) (N : Noti) (id : Nat) : World × Except Err Nat :=
-  let N := updateConns w N
-  let w : World := setN w n N
-  if w.cfg.idMax < id then (w, .error .outOfBounds) else
-  let ts := targets N
-  let cnt := (ts.filter (reaches w)).length
-  let w : World := { deliver w ts id with hist := w.hist ++ [id] }
+  let N' := updateConns w N
+  let w1 := setN w n N'
+  if w.cfg.idMax < id then (w1, .error .outOfBounds) else
+  let ts := targets N'
+  let cnt := (ts.filter (reaches w1)).length
   -- `handle_deadline`: after the delivery
-  if w.cfg.deadline = 2 then (w, .error .missedDeadline) else (w, .ok cnt)
+  ({ deliver w1 ts id with hist := w.hist ++ [id] }, if w.cfg.deadline = 2 then .error .missedDeadline else .ok cnt)
 
 /-! ### operations -/
 
@@ -237,13 +237,37 @@ def deadSignal (w : World) : World :=
   match w.cfg.dead with
   | none => w
   | some id =>
-    -- a temporary notifier (`new_without_auto_event_emission`, nothing on drop) takes a slot and gives it back
-    match w.notReg.add 0 with
-    | none => w
-    | some (reg, i) =>
-      let w := { w with notReg := reg.remove i }
-      if w.cfg.idMax < id then w
-      else { deliver w w.lisReg.labels id with hist := w.hist ++ [id] }
+    -- a temporary notifier (`new_without_auto_event_emission`, nothing on drop) takes a slot and gives it back:
+    -- the index returns to the head of the free list, the change counter moved twice
+    match w.notReg.free with
+    | [] => w
+    | _ :: _ =>
+      if w.cfg.idMax < id then { w with notReg := { w.notReg with counter := w.notReg.counter + 2 } }
+      else { deliver { w with notReg := { w.notReg with counter := w.notReg.counter + 2 } } w.lisReg.labels id with
+             hist := w.hist ++ [id] }
+
+/-- `kill`: the process of node `k` dies: its ports turn from alive to dead, everything stays where it is -/
+def killPorts (w : World) (k : Nat) : World :=
+  { w with
+    liss := fun l => match w.liss l with
+      | some L => if L.node = k ∧ L.st = .alive then some { L with st := .dead } else some L
+      | none => none,
+    nots := fun n => match w.nots n with
+      | some N => if N.node = k ∧ N.st = .alive then some { N with st := .dead } else some N
+      | none => none }
+
+/-- `remove_dead_node_id`: every registry entry owned by node `d` is recovered (`Container::recover`), the listeners'
+event concepts are removed (`remove_connection_of_listener`), the port tags too -/
+def purge (w : World) (d : Nat) : World :=
+  { w with
+    lisReg := w.lisReg.removeWhere (fun l => lisNode w l = some d) w.lisReg.slots.length,
+    notReg := w.notReg.removeWhere (fun n => notNode w n = some d) w.notReg.slots.length,
+    liss := fun l => match w.liss l with
+      | some L => if L.node = d then some { L with st := .gone, pending := [] } else some L
+      | none => none,
+    nots := fun n => match w.nots n with
+      | some N => if N.node = d then some { N with st := .gone } else some N
+      | none => none }
 
 /-- `__internal_remove_node_from_service` + the removal of the node's own files, for one dead node -/
 def cleanNode (acc : World × Nat) (d : Nat) : World × Nat :=
@@ -254,27 +278,21 @@ def cleanNode (acc : World × Nat) (d : Nat) : World × Nat :=
     if !(P.dead && nodeCore w d) then acc else
     let hadSvc := svcCore w d
     let nn := (notOf w d).length
-    let isL := fun l => lisNode w l = some d
-    let isN := fun n => notNode w n = some d
-    let w1 : World :=
-      { w with
-        lisReg := w.lisReg.removeWhere isL w.lisReg.slots.length,
-        notReg := w.notReg.removeWhere isN w.notReg.slots.length,
-        liss := fun l => match w.liss l with
-          | some L => if L.node = d ∧ L.st = .dead then some { L with st := .gone, pending := [] } else some L
-          | none => none,
-        nots := fun n => match w.nots n with
-          | some N => if N.node = d ∧ N.st = .dead then some { N with st := .gone } else some N
-          | none => none }
-    let w2 := setP w1 d { P with handle := false, svc := false, dirLeft := false }
+    let w2 := setP (purge w d) d { P with handle := false, svc := false, dirLeft := false }
     let w3 := if hadSvc && serviceExists w2 && nn != 0 then deadSignal w2 else w2
     (w3, acc.2 + 1)
+
+/-- the directory of node `k` stayed behind -/
+def dirLeftOf (w : World) (k : Nat) : Bool :=
+  match w.parts k with
+  | some P => P.dirLeft
+  | none => false
 
 /-- (kind, count) pairs in the order of the kind names -/
 def resources (w : World) : List (String × Nat) :=
   if !w.cfg.ipc then [] else
   let nc := (w.partKeys.filter (nodeCore w)).length
-  let dirs := (w.partKeys.filter fun k => nodeCore w k || (match w.parts k with | some P => P.dirLeft | none => false)).length
+  let dirs := (w.partKeys.filter fun k => nodeCore w k || dirLeftOf w k).length
   let sv := if serviceExists w then 1 else 0
   let all := [("details", nc), ("dynamic", sv), ("event", w.lisReg.len), ("event_mgmt", w.lisReg.len),
               ("node_monitor", nc), ("node_monitor_context", nc), ("node_monitor_owner_lock", nc),
@@ -287,6 +305,26 @@ def usable (w : World) (k : Nat) : Except Out Part :=
   match w.parts k with
   | none => .error .noNode
   | some P => if P.dead then .error .dead else if !P.svc then .error .noService else .ok P
+
+/-- `Notifier::new_without_auto_event_emission`: the state of the listener registry is copied, a connection to every listener
+in it is opened, the registry entry comes last -/
+def newNoti (w : World) (k : Nat) (d : Option Nat) (slot : Nat) : Noti :=
+  { populate w { node := k, slot := 0, defId := d.getD 0, snapCtr := w.lisReg.counter, snap := w.lisReg.slots,
+                 conns := List.replicate w.lisReg.slots.length none } with slot := slot }
+
+def cnotBase (w : World) (n k : Nat) (d : Option Nat) (reg : Reg) (slot : Nat) : World :=
+  setN { w with notReg := reg } n (newNoti w k d slot)
+
+/-- `Drop for Notifier`, first part: the notifier_dropped_event (failures are logged only) -/
+def dropEmit (w : World) (n : Nat) (N : Noti) : World :=
+  match w.cfg.dropped with
+  | some c => (notifyCore w n N c).1
+  | none => w
+
+/-- `Drop for Notifier`, second part: the registry entry is released, the connections are closed -/
+def dnotBase (w1 : World) (n : Nat) (N : Noti) : World :=
+  setN { w1 with notReg := w1.notReg.remove N.slot } n
+    { (w1.nots n).getD N with st := .gone, conns := ((w1.nots n).getD N).conns.map fun _ => none }
 
 def outOfNotify (r : Except Err Nat) : Out :=
   match r with
@@ -305,32 +343,21 @@ def step (w : World) : Op → World × Out
     match usable w k with
     | .error o => (w, o)
     | .ok _ =>
-      -- `Notifier::new_without_auto_event_emission`
-      let N0 : Noti := { node := k, slot := 0, defId := d.getD 0, snapCtr := w.lisReg.counter, snap := w.lisReg.slots,
-                         conns := List.replicate w.lisReg.slots.length none }
-      let N1 := populate w N0
       match w.notReg.add n with
       | none => (w, .err .exceedsNotifiers)
       | some (reg, slot) =>
-        let N2 := { N1 with slot := slot }
-        let w1 := setN { w with notReg := reg } n N2
+        let w1 := cnotBase w n k d reg slot
         -- `Notifier::new`: the notifier_created_event, failures are logged only
         match w.cfg.created with
-        | some c => ((notifyCore w1 n N2 c).1, .ok)
+        | some c => ((notifyCore w1 n (newNoti w k d slot) c).1, .ok)
         | none => (w1, .ok)
   | .dnot n =>
     match w.nots n with
     | none => (w, .none)
     | some N =>
       if N.st ≠ .alive then (w, .none) else
-      -- `Drop for Notifier`: the notifier_dropped_event first, then the registry entry is released
-      let w1 := match w.cfg.dropped with
-        | some c => (notifyCore w n N c).1
-        | none => w
-      let N1 := (w1.nots n).getD N
-      let w2 := setN { w1 with notReg := w1.notReg.remove N.slot } n
-                  { N1 with st := .gone, conns := N1.conns.map fun _ => none }
-      (afterPortDrop w1 w2 N.node, .ok)
+      let w1 := dropEmit w n N
+      (afterPortDrop w1 (dnotBase w1 n N) N.node, .ok)
   | .clis l k =>
     if (w.liss l).isSome then (w, .dup) else
     match usable w k with
@@ -389,14 +416,7 @@ def step (w : World) : Op → World × Out
     | none => (w, .noNode)
     | some P =>
       if P.dead then (w, .dead) else
-      -- the process of node `k` dies: everything it holds stays where it is
-      ({ setP w k { P with dead := true } with
-          liss := fun l => match w.liss l with
-            | some L => if L.node = k ∧ L.st = .alive then some { L with st := .dead } else some L
-            | none => none,
-          nots := fun n => match w.nots n with
-            | some N => if N.node = k ∧ N.st = .alive then some { N with st := .dead } else some N
-            | none => none }, .ok)
+      (killPorts (setP w k { P with dead := true }) k, .ok)
   | .cleanup k =>
     match w.parts k with
     | none => (w, .noNode)
